@@ -106,7 +106,7 @@ func runC13(c c13Case) vh.Result {
 			plan = plan[1:]
 		}
 		mu.Unlock()
-		script := &peer.Script{Mechs: []string{"PLAIN"}, OfferSM: true, SMId: "sm-c13", ResumeReply: "failed", OfferTLS: c.TLS, Cert: "valid"}
+		script := &peer.Script{Mechs: []string{"PLAIN"}, OfferSM: true, ExpectEnable: c.SM, SMId: "sm-c13", ResumeReply: "failed", OfferTLS: c.TLS, Cert: "valid"}
 		switch what {
 		case "ok-resume":
 			script.ResumeReply = "resumed-same"
